@@ -1,7 +1,8 @@
 /-
 C12 — attaching or resuming a subscription never skips or repeats a change silently.
 Property theorems only; the model is `Corro/Model/CatchUp.lean`, helper lemmas (the invariants of
-`catch_up_sub` and their preservation) are in `Corro/Lemmas/CatchUp.lean`, `CatchUpSnap.lean`.
+`catch_up_sub` and their preservation) are in `Corro/Lemmas/CatchUp.lean`, `CatchUpSnap.lean`,
+`CatchUpPause.lean`.
 
 A run is `run cfg (e0, attach e0 mode) acts`: the subscriber has just called `tx.subscribe()` in an
 arbitrary matcher/pipe/log state `e0` (anything may have happened before), `acts` is an arbitrary
@@ -10,7 +11,7 @@ main task and of its buffering task — for any capacities `cfg`.  Other subscri
 they share nothing with this one but the matcher and the broadcast stream, which the schedule
 already drives arbitrarily, so every statement holds for each of any number of subscribers.
 -/
-import Corro.Lemmas.CatchUpSnap
+import Corro.Lemmas.CatchUpPause
 
 namespace Corro.CatchUp
 
@@ -226,6 +227,81 @@ theorem done_frozen (cfg : Cfg) (acts : List Act) (e : Env) (s : Sub) (h : s.pc 
       simp only [stepQCancel]
       (repeat' split) <;> exact ih e _ rfl
     all_goals exact ih _ _ rfl
+
+/-! ### a batch sent and not yet committed (the matcher held before `tx.commit()`; harness op `wpause`) -/
+
+/-- The environment step added with the pause hook — the driver's `wpause` (a batch of ANY size `n`
+sent, the matcher held before its commit) and the `commit` that lets it go — is not a new behaviour
+of the model: wherever it occurs in a run it IS the schedule `emit × n` (resp. `[commit]`) of the
+`Act`s over which `snapshot_consistent`, `ids_strictly_increasing_from`, `resume_base`,
+`ids_strictly_increasing_before_handover` and `done_frozen` quantify (all lists of `Act`), so those
+theorems cover every run in which a subscriber subscribes, reads, reconciles, is released or goes
+live before, during and after such a batch. -/
+theorem paused_batch_is_schedule (cfg : Cfg) (st : State) (before after : List Act) (n : Nat) :
+    run cfg st (before ++ List.replicate n .emit ++ after)
+      = run cfg (sendBatch cfg (run cfg st before).1 n, (run cfg st before).2) after ∧
+    run cfg st (before ++ [.commit] ++ after)
+      = run cfg (commitBatch cfg (run cfg st before).1, (run cfg st before).2) after ∧
+    (∀ e : Env, sendBatch cfg e n = { e with sent := e.sent + n }) ∧
+    (∀ e : Env, commitBatch cfg e = { e with committed := e.sent }) := by
+  refine ⟨?_, ?_, sendBatch_eq cfg n, fun e => rfl⟩
+  · rw [run_append, run_append, run_replicate_emit]
+  · rw [run_append, run_append]
+    rfl
+
+/-- **C12, "however its attachment races with changes being produced", the window between the
+matcher's send and its commit.**  A subscriber subscribes in ANY state in which at least one change
+is sent and not committed (`committed < sent`, any number of them, any part of them already
+broadcast) — snapshot, `skip_rows`, or a resume point up to the head of the log — and then runs
+alone, in any interleaving of its two tasks, while the matcher stays before its commit and the pipe
+delivers nothing more.  Then it is NEVER declared caught up: it never reaches the pending-event /
+drain / hand-over phases or live forwarding, it delivers no change above `committed`, and when it
+ends, it ends with the error event followed by the end of the stream (`ok ended` of the harness).
+In particular `last_change_id_sent = last + 1` with nothing buffered is not "nothing missed". -/
+theorem never_caught_up_between_send_and_commit (cfg : Cfg) (e : Env) (mode : Mode) (acts : List Act)
+    (hun : e.committed < e.sent) (hm : ∀ n, mode = .since n → n ≤ e.committed)
+    (ha : ∀ a ∈ acts, SubOnly a) :
+    let s := (run cfg (e, attach e mode) acts).2
+    s.pc ≠ .sendPending ∧ s.pc ≠ .cancel ∧ s.pc ≠ .drain ∧ s.pc ≠ .join ∧ s.pc ≠ .live ∧
+    s.handed = false ∧ (∀ k ∈ chg s.out, k ≤ e.committed) ∧
+    (s.pc = .done → ∃ pre, s.out = pre ++ [.error, .closed]) := by
+  intro s
+  obtain ⟨_, h⟩ := run_pinv cfg acts e (attach e mode) hun (pinv_attach e mode hm) ha
+  have hp := h.pcs
+  refine ⟨?_, ?_, ?_, ?_, ?_, h.nh, h.ids, ?_⟩
+  all_goals
+    intro hpc
+    simp only [PausePc, s] at hp hpc
+    rw [hpc] at hp
+  · exact hp
+  · exact hp
+  · exact hp
+  · exact hp
+  · exact hp
+  · exact hp
+
+/-- the window of the seeded change C12-1 (corpus/C12/attach_between_send_and_commit.ops): changes
+1, 2 committed, change 3 sent and broadcast before the subscriber exists, not committed; resume
+from 2 with nothing buffered: the reconcile re-reads the log five times and ends the stream … -/
+example : (run {} ({ sent := 3, committed := 2, published := 3 },
+      attach { sent := 3, committed := 2, published := 3 } (.since 2)) (List.replicate 9 .main)).2.out
+    = [.error, .closed] := by decide
+
+/-- … so does an attach from scratch (after a consistent snapshot at change 2) -/
+example : (run {} ({ sent := 3, committed := 2, published := 3 },
+      attach { sent := 3, committed := 2, published := 3 } .anew) (List.replicate 10 .main)).2.out
+    = [.rows 2, .eoq 2, .error, .closed] := by decide
+
+/-- … and when the commit comes while the first read is still open, the re-read delivers the change:
+3 committed, 4 sent and broadcast before the subscriber exists; resume from 0, commit after the first
+read; one re-read fetches 4, hand-over, then change 5 arrives live: 1, 2, 3, 4, 5 -/
+example : (run {} ({ sent := 4, committed := 3, published := 4 },
+      attach { sent := 4, committed := 3, published := 4 } (.since 0))
+      [.main, .commit, .main, .main, .main, .main, .main, .main, .main, .qcancel, .main, .main,
+       .emit, .commit, .publish, .main]).2.out
+    = [.change 1, .change 2, .change 3, .change 4, .change 5] := by decide
+
+example : SubOnly .main ∧ SubOnly .qrecv ∧ SubOnly .qcancel := by simp [SubOnly]
 
 /-- the F9 schedule: one change sent and committed but still in the pipe; resume from 0 reads it
 from the log, reconciles (queue empty, `last_change_id_sent = 1 ≤ last`), cancels the buffering
